@@ -1,6 +1,6 @@
 (* Proofs about Model/Net.v : the reverse sweep of Network.sensitivity is the exact adjoint of the
    forward sweep of Network.response, for every well-formed module list (C02). *)
-From Coq Require Import List Arith Bool Lia Ring Permutation.
+From Coq Require Import List Arith Bool Lia Ring ZArith.
 From Pymoto Require Import Base.Num Model.Net.
 Import ListNotations.
 
@@ -943,7 +943,6 @@ Section NetProofs.
     - intros ws _. apply oshapes_mask; [exact Hlen|].
       apply fold_adj_shapes; [exact Hbl | apply shapes_zeros].
     - intros xs ws _ _. unfold lin_adj.
-      change (sumodot (mask (l_none L) (lin_adj_dense L ws)) xs = sumdot ws (lin_fwd L xs) -> _) || idtac.
       fold (mask (l_none L) (lin_adj_dense L ws)).
       rewrite sumodot_mask.
       + pose proof (fold_adjoint L xs ws (eff_blocks L) Hbl (map vzero (l_odims L)) (map vzero (l_idims L))
@@ -955,4 +954,88 @@ Section NetProofs.
         rewrite E. ring.
       + apply fold_adj_flag_zero; [apply eff_blocks_unflagged | apply flag_zero_init; exact Hlen].
   Qed.
+
+  (* ------------------------------------------------------------------ networks described by data *)
+  Section StreeInd.
+    Variable P : stree K -> Prop.
+    Hypothesis HM : forall ins outs L, P (SMod ins outs L).
+    Hypothesis HN : forall l, Forall P l -> P (SNet l).
+    Fixpoint stree_induction (s : stree K) : P s :=
+      match s with
+      | SMod ins outs L => HM ins outs L
+      | SNet l => HN l ((fix go (l : list (stree K)) : Forall P l :=
+                           match l with
+                           | [] => Forall_nil P
+                           | x :: r => Forall_cons x (stree_induction x) (go r)
+                           end) l)
+      end.
+  End StreeInd.
+
+  Lemma specs_ok_wt s : specs_ok dims s = true -> wt_net dims (flatten (to_node s)).
+  Proof.
+    induction s as [ins outs L|l IH] using stree_induction; intros Hok.
+    - simpl. constructor; [apply linmod_wt; exact Hok | constructor].
+    - simpl in *. induction IH as [|x r Hx _ IHr]; [constructor|].
+      apply andb_true_iff in Hok as [H1 H2].
+      apply Forall_app. split; [apply Hx; exact H1 | apply IHr; exact H2].
+  Qed.
+
+  Theorem described_network_adjoint N s (c : cenv K) (t : tenv K) :
+    net_ok N dims s = true -> wt_cot dims c -> wt_tan dims t ->
+    pairing_on (seq 0 N) c (fwd_node (to_node s) t)
+    = pairing_on (sources N (flatten (to_node s))) (bwd_node dims (to_node s) c) t.
+  Proof.
+    unfold net_ok. intros Hok Hc Ht.
+    apply andb_true_iff in Hok as [Hok H3]. apply andb_true_iff in Hok as [H1 H2].
+    rewrite fwd_node_flatten, bwd_node_flatten.
+    apply backprop_adjoint; auto. apply specs_ok_wt. exact H3.
+  Qed.
 End NetProofs.
+
+(* the integers are an instance *)
+Lemma Zring_theory : ring_theory (@nzero Z NumZ) none_ nadd nmul nsub nopp (@eq Z).
+Proof. exact Zth. Qed.
+
+Lemma repeated_position_counterexample :
+  exists (mods : list (module Z)) (c : cenv Z) (t : tenv Z),
+    wf_net mods = true /\ below 2 mods = true /\
+    pairing_on (seq 0 2) c (fwd mods t) <> pairing_on (sources 2 mods) (bwd (dims_of [1; 2]) mods c) t.
+Proof.
+  exists bad_repeat, (cenv_of [None; Some [1; 1]%Z]), (env_of [[1]%Z; []]).
+  split; [reflexivity|]. split; [reflexivity|]. vm_compute. discriminate.
+Qed.
+
+Lemma copying_slice_counterexample :
+  exists (mods : list (module Z)) (c : cenv Z) (t : tenv Z),
+    wf_net mods = true /\ below 2 mods = true /\
+    pairing_on (seq 0 2) c (fwd mods t) <> pairing_on (sources 2 mods) (bwd (dims_of [4; 2]) mods c) t.
+Proof.
+  exists bad_lost, (cenv_of [None; Some [1; 1]%Z]), (env_of [[1; 1; 1; 1]%Z; []]).
+  split; [reflexivity|]. split; [reflexivity|]. vm_compute. discriminate.
+Qed.
+
+Lemma cenv_of_wt dims (l : list (option (list Z))) :
+  forallb (fun p => match snd p with None => true | Some g => Nat.eqb (length g) (dims (fst p)) end)
+          (combine (seq 0 (length l)) l) = true ->
+  wt_cot dims (cenv_of l).
+Proof.
+  intros Hb s g Hs. unfold cenv_of in Hs.
+  destruct (Nat.lt_ge_cases s (length l)) as [Hlt|Hge].
+  - rewrite forallb_forall in Hb.
+    assert (Hin : In (s, nth s l None) (combine (seq 0 (length l)) l)).
+    { replace (s, nth s l None) with (nth s (combine (seq 0 (length l)) l) (0, None)).
+      - apply nth_In. rewrite combine_length, seq_length. lia.
+      - rewrite combine_nth by apply seq_length. rewrite seq_nth by exact Hlt. reflexivity. }
+    specialize (Hb _ Hin). simpl in Hb. rewrite Hs in Hb. apply Nat.eqb_eq. exact Hb.
+  - rewrite nth_overflow in Hs by exact Hge. discriminate.
+Qed.
+
+Lemma diamond_facts :
+  net_ok 8 (dims_of diamond_dims) diamond = true /\
+  wt_cot (dims_of diamond_dims) (cenv_of diamond_seeds) /\
+  show_c 8 (bwd_node (dims_of diamond_dims) (to_node diamond) (cenv_of diamond_seeds)) = diamond_expected /\
+  sources 8 (flatten (to_node diamond)) = [0; 1].
+Proof.
+  split; [vm_compute; reflexivity|]. split; [apply cenv_of_wt; vm_compute; reflexivity|].
+  split; vm_compute; reflexivity.
+Qed.
